@@ -151,6 +151,28 @@ Proof.
   destruct (fold_left _ (tl yj) _) as [a b]. reflexivity.
 Qed.
 
+(* the code accumulates (used, rho_3j); F3 keeps them in the other order *)
+Definition F3s : bdd * bdd -> bdd * bdd -> bdd * bdd :=
+  fun '(used, r) '(x, hold) =>
+    (bor used x, bor r (band (band (band x (bnot used)) (ca x None)) hold)).
+Definition swp (p : bdd * bdd) : bdd * bdd := (snd p, fst p).
+
+Lemma F3s_swap l : forall p, fold_left F3s l (swp p) = swp (fold_left F3 l p).
+Proof.
+  induction l as [|[x h] l IH]; intros [r u]; cbn [fold_left]; [reflexivity|].
+  rewrite <- IH. reflexivity.
+Qed.
+
+Lemma nested_F3s xjk : forall p,
+  fold_left (fun '(u0, r0) xk => fold_left F3s (combine xk holds) (u0, r0)) xjk (swp p) =
+  swp (fold_left F3 (flat3 xjk) p).
+Proof.
+  intros p. rewrite <- nested_F3. revert p.
+  induction xjk as [|xk r IH]; intros [r0 u0]; cbn [fold_left]; [reflexivity|].
+  unfold swp at 1. cbn [fst snd].
+  change (u0, r0) with (swp (r0, u0)). rewrite F3s_swap. apply IH.
+Qed.
+
 Lemma rho_3_alt xijk :
   rho_3 nc nx ny G E S holds moore plus_one xijk =
   fold_left (fun acc '(i, xjk) =>
@@ -159,8 +181,11 @@ Lemma rho_3_alt xijk :
     (enumerate 0 xijk) bfalse.
 Proof.
   unfold rho_3. apply fold_left_ext. intros acc [i xjk].
-  rewrite <- nested_F3. unfold F3.
-  destruct (fold_left _ xjk _) as [a b]. reflexivity.
+  match goal with |- context [fold_left ?f xjk ?a] =>
+    change (fold_left f xjk a) with
+      (fold_left (fun '(u0, r0) xk => fold_left F3s (combine xk holds) (u0, r0)) xjk
+         (swp (bfalse, bfalse))) end.
+  rewrite nested_F3s. unfold swp. cbn [fst snd]. reflexivity.
 Qed.
 
 (* rho_2 contains the rim step of goal j *)
